@@ -279,7 +279,7 @@ pub fn global_parse_int(
     let radix = args
         .get(1)
         .map(|v| crate::value::to_int32(v.to_number()))
-        .unwrap_or(10);
+        .unwrap_or(0);
 
     // Trim whitespace
     let s = string.trim();
@@ -288,8 +288,12 @@ pub fn global_parse_int(
         return Ok(Guarded::unguarded(JsValue::Number(f64::NAN)));
     }
 
-    // Handle radix
-    let radix = if radix == 0 { 10 } else { radix };
+    // Handle radix: an absent / zero radix means 10, and only then (or with 16) is a 0x prefix recognised
+    let (mut radix, strip_prefix) = if radix == 0 {
+        (10, true)
+    } else {
+        (radix, radix == 16)
+    };
     if !(2..=36).contains(&radix) {
         return Ok(Guarded::unguarded(JsValue::Number(f64::NAN)));
     }
@@ -303,34 +307,65 @@ pub fn global_parse_int(
         (false, s)
     };
 
-    // Handle hex prefix for radix 16
-    let s = if radix == 16 {
-        s.strip_prefix("0x")
-            .or_else(|| s.strip_prefix("0X"))
-            .unwrap_or(s)
+    // Handle hex prefix
+    let s = if strip_prefix {
+        match s.strip_prefix("0x").or_else(|| s.strip_prefix("0X")) {
+            Some(rest) => {
+                radix = 16;
+                rest
+            }
+            None => s,
+        }
     } else {
         s
     };
 
-    // Parse digits until invalid character
-    let mut result: i64 = 0;
-    let mut found_digit = false;
-
-    for c in s.chars() {
-        let digit = match c.to_digit(radix as u32) {
-            Some(d) => d as i64,
-            None => break,
-        };
-        found_digit = true;
-        result = result * (radix as i64) + digit;
-    }
-
-    if !found_digit {
+    // The digits of the integer: everything up to the first character that is not a digit
+    let digits_len = s
+        .char_indices()
+        .find(|(_, c)| c.to_digit(radix as u32).is_none())
+        .map(|(i, _)| i)
+        .unwrap_or(s.len());
+    let digits = s.get(..digits_len).unwrap_or("");
+    if digits.is_empty() {
         return Ok(Guarded::unguarded(JsValue::Number(f64::NAN)));
     }
 
-    let result = if negative { -result } else { result };
-    Ok(Guarded::unguarded(JsValue::Number(result as f64)))
+    let magnitude = if radix == 10 {
+        // correctly rounded, however many digits there are
+        digits.parse::<f64>().unwrap_or(f64::NAN)
+    } else {
+        // Exact while the value fits 128 bits; beyond that the remaining digits only scale the
+        // value and make it inexact (sticky bit), which keeps power-of-two radices correctly rounded.
+        let mut acc: u128 = 0;
+        let mut extra_digits: i32 = 0;
+        let mut sticky = false;
+        for c in digits.chars() {
+            let d = c.to_digit(radix as u32).unwrap_or(0) as u128;
+            if extra_digits == 0 {
+                match acc.checked_mul(radix as u128).and_then(|v| v.checked_add(d)) {
+                    Some(v) => {
+                        acc = v;
+                        continue;
+                    }
+                    None => {}
+                }
+            }
+            extra_digits = extra_digits.saturating_add(1);
+            sticky |= d != 0;
+        }
+        let mut value = (acc | sticky as u128) as f64;
+        for _ in 0..extra_digits {
+            value *= radix as f64;
+            if value.is_infinite() {
+                break;
+            }
+        }
+        value
+    };
+
+    let result = if negative { -magnitude } else { magnitude };
+    Ok(Guarded::unguarded(JsValue::Number(result)))
 }
 
 pub fn global_parse_float(
